@@ -233,6 +233,10 @@ def propagation(run, src, which):
     return obls
 
 
+def e_fresh_int(eng):
+    return eng.fresh("attr", "int")
+
+
 # =================================================================================================== _solve
 def solve_loop(run, src):
     """while-loop with break/else; _sys_init/_fwd_prop/_back_prop/np.allclose through their contracts (uninterpreted).
@@ -264,12 +268,17 @@ def solve_loop(run, src):
     eng.overrides["system.System._fwd_prop"] = fwd
     eng.overrides["system.System._back_prop"] = back
     eng.np.methods["allclose"] = lambda e, a, b, rtol=None, **k: SV(CLOSE(a.z, b.z, to_z(rtol, "real")), "bool")
+    SLICE = z3.Function("vec_slice", Vec, I, I, Vec)     # a part of a vector is not the vector: agreement on a slice does not give convergence
+    eng.opaque_slice = lambda e, b, lo, hi, st: SV(SLICE(b.z, to_z(lo) if lo is not None else z3.IntVal(0), to_z(hi) if hi is not None else z3.IntVal(-1)))
+    from pyvc.engine import Builtin
+    eng.extra_globals["len"] = Builtin("len", lambda e, x: e.fresh("len", "int") if (is_sym(x) or isinstance(x, (Opaque, HMap, Seq))) else len(x))
+    selfattrs = {"_topo_nodes": Opaque("topo"), "_g": Opaque("g", attrs={"attrs": HMap(lambda k: e_fresh_int(eng))})}
     eng.assumed_used.add("np.allclose")
     def inv(env, k):
         it = to_z(env["iters"])
         return z3.And(it >= 0, it <= maxiter, to_z(env["__sweeps"]) == it)
     eng.loop_specs[(qual, "While", 0)] = LoopSpec(qual + "/while", inv=inv, variant=lambda env: maxiter - to_z(env["iters"]), ghost=["__sweeps"])
-    selfobj = Opaque("self", cls="System")
+    selfobj = Opaque("self", cls="System", attrs=selfattrs)
     def thunk(e):
         e.assume(maxiter >= 0)
         r = e.call_method(selfobj, "_solve", [SV(vtol, "real"), SV(itol, "real"), SV(maxiter, "int"), SV(z3.Bool("quiet"), "bool"), phase])
@@ -519,7 +528,10 @@ def _solve_node_slice(run, src, fn, inner, colblock):
             if nm in env or nm == "res": continue
             if nm == "pstate": env[nm] = HavocDict(); continue
             log = []
-            env[nm] = Opaque("dict:" + nm, setitem=(lambda e_, k, v, log=log, nm=nm: (log.append((k, v)), e_.event("dictstore", dname=nm, key=k, val=v))[0]), label=nm)
+            PREV = z3.Function("carried_" + nm, I, NAME)        # loop-carried content from earlier iterations / phases: arbitrary
+            env[nm] = Opaque("dict:" + nm, setitem=(lambda e_, k, v, log=log, nm=nm: (log.append((k, v)), e_.event("dictstore", dname=nm, key=k, val=v))[0]),
+                             contains=(lambda e_, item, nm=nm: z3.Bool("carried_has_%s" % nm)),
+                             getitem=(lambda e_, k, PREV=PREV: SV(PREV(to_z(k)), "name") if (is_sym(k) and k.sort == "int") else (_ for _ in ()).throw(Unsupported("read of loop-carried dict"))), label=nm)
         for nm in loaded:
             if nm in env or nm in stored or nm in ("len", "print", "any", "list", "range", "sum", "abs", "pd", "np", "_get_eff"): continue
             if nm == "show_trise": env[nm] = e.fresh("show_trise", "bool")
